@@ -1,4 +1,6 @@
 import BddVerif.Lemmas.AlgoEq2RenTransfer
+import BddVerif.Lemmas.AlgoEq2RenSubst
+import BddVerif.Lemmas.AlgoEq2RenSize
 import BddVerif.Drive.Algo2
 /-!
 # The `AlgoEq2Ren*` theorems with the exact arguments of the replay driver (`Drive/Algo2.lean`)
@@ -16,7 +18,7 @@ theorem hashMapFromArr_zipIdx (names : List String) :
   unfold Rust.hashMapFromArr
   rw [← Array.foldl_toList]
   have : (names.zipIdx.map fun (x : String × Nat) => (x.1, x.2)) = names.zipIdx := by simp
-  simp only [List.toList_toArray, List.size_toArray, this, List.length_zipIdx]
+  simp only [List.size_toArray, this, List.length_zipIdx]
   exact foldl_zipIdx_eq_buildIndex names 0 _
 
 theorem varSetOfNames_setOf (names : List String) (T : VSet) (h : Drive.Algo2.varSetOfNames names = some T) :
@@ -41,5 +43,31 @@ theorem transfer_from_rel_driver (A : Arr) (src tgt : List String) (S T : VSet)
     RelOpt (Algo2.BddVariableSet_transfer_from T A S) (Ren.transferFrom tgt A src) :=
   transfer_from_rel_setOf T S A tgt src (varSetOfNames_setOf tgt T hT).1 (varSetOfNames_setOf src S hS).1.arr
 
+
+/-! ## `C07.sub`: the driver passes `fuelSub F G` -/
+
+/-- `substitute` with the driver's fuel: equal to the hand model whenever the side conditions hold at that fuel.
+    (`fuelSub F G = 64·((4|F||G| + 64)² + numVars F)` is not PROVABLY sufficient: `StepOK` asks for the model-computed
+    `nestedFuel`, for which no closed bound in `|F|`, `|G|` is available — same situation as `nested_apply`.) -/
+theorem Bdd_substitute_eq_model_driver (F G : Arr) (n x : Nat) (hF : WFo F n) (hG : WFo G n) (hn : n + 1 < 65536)
+    (ok : SubstOK (Drive.Algo2.fuelSub F G) F G n x) :
+    Algo2.Bdd_substitute (Drive.Algo2.fuelSub F G) F x G = Ren.Subst.substitute F x G :=
+  Bdd_substitute_eq_model _ F G n x hF hG hn ok
+
+/-- on the operands of the examples of `AlgoEq2RenSubst.lean` the driver's fuel does satisfy the side conditions -/
+example : Algo2.Bdd_substitute (Drive.Algo2.fuelSub Props.C07.exF Props.C07.exG1) Props.C07.exF 0 Props.C07.exG1 =
+    Ren.Subst.substitute Props.C07.exF 0 Props.C07.exG1 := by
+  apply substitute_safe _ _ _ 3 0 Props.C07.exF_wf Props.C07.exG1_wf (by decide) (by decide)
+  have h := ex_stepOK
+  exact ⟨h.iffSize, by decide, h.left32, h.mid32, h.res32, Nat.le_trans h.nestFuel (by decide)⟩
+
+/-! ## `C09.cnt`: `size_per_variable` is printed through `showPairsSorted` (sorted by key) -/
+
+/-- the list the driver prints is the hand model's list -/
+theorem size_per_variable_driver (A : Arr) (hs : A.size ≤ 4294967296) :
+    ∃ m : HashMap Nat Nat, Algo2.Bdd_size_per_variable A = .ok m ∧
+      m.toList.mergeSort (fun a b => decide (a.1 ≤ b.1)) = sizePerVariable A := by
+  obtain ⟨m, h1, _, h3⟩ := size_per_variable_eq_model A hs
+  exact ⟨m, h1, h3⟩
 
 end B.AlgoEq2Ren
